@@ -29,7 +29,9 @@ CONSTANTS
   NameChoices,   \* subset of {0,1}: constructs unnamed / named
   EndForms,      \* subset of {0,1,2}: END / END kind / END kind name
   LabelStmts,    \* BOOLEAN: simple statements may carry a label
-  Contains       \* BOOLEAN: CONTAINS parts are generated
+  Contains,      \* BOOLEAN: CONTAINS parts are generated
+  Randomised     \* BOOLEAN: (simulation only) draw catalogue variants with RandomElement
+                 \* instead of enumerating them, so that a simulation step has few successors
 
 VARIABLES out, stack, done, needs08, nlab, nname, nunit, rich
 gvars == <<out, stack, done, needs08, nlab, nname, nunit, rich>>
@@ -46,6 +48,7 @@ Rec(k, of, v, n, l, x) == [k |-> k, of |-> of, v |-> v, n |-> n, l |-> l, d |-> 
 Ent(k, v, n, l, ph) == [k |-> k, v |-> v, n |-> n, l |-> l, ph |-> ph, ib |-> FALSE]
 
 MinOf(S) == CHOOSE m \in S : \A y \in S : m <= y
+Ch(S) == IF Randomised /\ S # {} THEN {RandomElement(S)} ELSE S
 Pick(S) == {y \in S : y <= MaxVar}
 \* cost of choosing variant v out of the allowed set S (the smallest is the default)
 Cost(v, S) == IF v = MinOf(S) THEN 0 ELSE 1
@@ -81,7 +84,8 @@ OpenUnit ==
   /\ ~done /\ Room
   /\ \E k \in UnitKinds :
        /\ \/ /\ stack = <<>> /\ nunit < MaxUnits          \* external unit
-             /\ (k = "main0" => nunit = 0 /\ MaxUnits = 1)
+             \* at most one main program
+             /\ (k \in {"main0", "prog"} => ~\E i \in 1..Len(out) : out[i].k = "prog" \/ (out[i].k = "endu" /\ out[i].of = "main0"))
           \/ /\ Len(stack) > 0 /\ Top.k \in UnitK /\ Top.ph \in {"cont0","cont"} /\ k \in {"sub","fun"}
              /\ Depth < MaxDepth
           \/ /\ Len(stack) > 0 /\ Top.k = "iface" /\ k \in {"sub","fun"} /\ Depth < MaxDepth
@@ -124,7 +128,7 @@ ContainsStmt ==
 \* ------------------------------------------------------------- specification statements
 UseStmt ==
   /\ ~done /\ Room /\ Len(stack) > 0 /\ Top.k \in (UnitK \ {"bdata"}) /\ Top.ph = "use"
-  /\ \E v \in UseV :
+  /\ \E v \in Ch(UseV) :
        /\ rich + Cost(v, UseV) <= MaxRich /\ rich' = rich + Cost(v, UseV)
        /\ out' = Append(out, Rec("use", "", v, 0, 0, 0))
   /\ UNCHANGED <<stack, done, needs08, nlab, nname, nunit>>
@@ -144,7 +148,7 @@ DeclOK(v) ==
 
 DeclStmt ==
   /\ ~done /\ Room /\ SpecHere
-  /\ \E v \in DeclV :
+  /\ \E v \in Ch(DeclV) :
        /\ DeclOK(v)
        /\ rich + Cost(v, DeclV) <= MaxRich /\ rich' = rich + Cost(v, DeclV)
        /\ out' = Append(out, Rec("decl", "", v, 0, 0, 0))
@@ -155,7 +159,7 @@ DeclStmt ==
 FormatStmt ==
   /\ ~done /\ Room /\ Len(stack) > 0
   /\ Top.k \in {"prog","main0","sub","fun"} /\ ~Top.ib /\ Top.ph \in {"decl","exec"}
-  /\ \E v \in FormatV :
+  /\ \E v \in Ch(FormatV) :
        /\ rich + Cost(v, FormatV) <= MaxRich /\ rich' = rich + Cost(v, FormatV)
        /\ out' = Append(out, Rec("format", "", v, 0, nlab, 0))
        /\ needs08' = (needs08 \/ v \in Format08)
@@ -178,7 +182,7 @@ OpenSpecCon ==
 TypeBody ==
   /\ ~done /\ Room /\ Len(stack) > 0 /\ Top.k = "type"
   /\ \/ /\ Top.ph \in {"body0", "body"}
-        /\ \E v \in CompV :
+        /\ \E v \in Ch(CompV) :
              /\ (v \in CompHeadOnly => Top.ph = "body0")
              /\ rich + Cost(v, CompV) <= MaxRich /\ rich' = rich + Cost(v, CompV)
              /\ out' = Append(out, Rec("comp", "", v, 0, 0, 0))
@@ -189,7 +193,7 @@ TypeBody ==
         /\ stack' = SetTopPh("bind0")
         /\ UNCHANGED <<needs08, rich>>
      \/ /\ Top.ph \in {"bind0", "bind"}
-        /\ \E v \in TbindV :
+        /\ \E v \in Ch(TbindV) :
              /\ (v \in TbindHeadOnly => Top.ph = "bind0")
              /\ rich + Cost(v, TbindV) <= MaxRich /\ rich' = rich + Cost(v, TbindV)
              /\ out' = Append(out, Rec("tbind", "", v, 0, 0, 0))
@@ -237,7 +241,7 @@ CloseLabel(st, lb) == IF Len(st) > 0 /\ st[Len(st)].k = "dol" /\ st[Len(st)].l =
 
 Simple ==
   /\ ~done /\ Room /\ ExecHere
-  /\ \E v \in SimpleV, lab \in BOOLEAN :
+  /\ \E v \in Ch(SimpleV), lab \in BOOLEAN :
        /\ SimpleOK(v)
        /\ (lab => LabelStmts)
        /\ rich + Cost(v, SimpleV) <= MaxRich /\ rich' = rich + Cost(v, SimpleV)
